@@ -244,7 +244,7 @@ pub fn plan(tier: Tier) -> Plan {
     uni::<U<Max>>(&mut checks, depth.min(100));
     uni::<QChunk>(&mut checks, depth);
     for x in values() {
-        for w in [0., 1e-6, 1., 1e6] {
+        for w in [0., 1e-6, 0.3, 1., 3., 7., 1e6] {
             checks.push(konst::<WeightedMean>((x, w), format!("const=({x:?},{w:?})"), depth.min(1000), weighted_judge::<WeightedMean>()));
             checks.push(konst::<WeightedMeanWithError>((x, w), format!("const=({x:?},{w:?})"), depth.min(1000), weighted_judge::<WeightedMeanWithError>()));
         }
